@@ -9,6 +9,7 @@ package main
 
 import (
 	"bytes"
+	"crypto"
 	"crypto/ecdsa"
 	"crypto/elliptic"
 	"crypto/rand"
@@ -74,8 +75,48 @@ func mk(cn string, pub *ecdsa.PublicKey, parent *x509.Certificate, pkey *ecdsa.P
 	return c
 }
 
+func mkWith(cn string, pub *ecdsa.PublicKey, parent *x509.Certificate, pkey crypto.Signer, eku []x509.ExtKeyUsage, nb, na time.Time) *x509.Certificate {
+	serial, _ := rand.Int(rand.Reader, big.NewInt(1<<62))
+	t := &x509.Certificate{SerialNumber: serial, Subject: pkix.Name{CommonName: cn}, NotBefore: nb, NotAfter: na,
+		BasicConstraintsValid: true, ExtKeyUsage: eku, KeyUsage: x509.KeyUsageDigitalSignature}
+	der, err := x509.CreateCertificate(rand.Reader, t, parent, pub, pkey)
+	if err != nil {
+		panic(err)
+	}
+	c, _ := x509.ParseCertificate(der)
+	return c
+}
+
 func pemOf(c *x509.Certificate) string {
 	return string(pem.EncodeToMemory(&pem.Block{Type: "CERTIFICATE", Bytes: c.Raw}))
+}
+
+// The unrelated CA "U" is the committed fixture otherroot.{crt,key}; it is made
+// a SYSTEM-trusted root of this process and its shard children (SSL_CERT_FILE),
+// so certificates it issued chain to a host-trusted root - and must still not be
+// recognised, because no client entry names that CA.
+const sysRootFile = "/verif/fixtures/keys/otherroot.crt"
+
+func loadOtherRoot() (*x509.Certificate, *ecdsa.PrivateKey, crypto.Signer) {
+	cb, err := os.ReadFile(sysRootFile)
+	if err != nil {
+		panic(err)
+	}
+	blk, _ := pem.Decode(cb)
+	c, err := x509.ParseCertificate(blk.Bytes)
+	if err != nil {
+		panic(err)
+	}
+	kb, err := os.ReadFile("/verif/fixtures/keys/otherroot.key")
+	if err != nil {
+		panic(err)
+	}
+	kblk, _ := pem.Decode(kb)
+	k, err := x509.ParsePKCS8PrivateKey(kblk.Bytes)
+	if err != nil {
+		panic(err)
+	}
+	return c, nil, k.(crypto.Signer)
 }
 
 func initCerts() {
@@ -86,7 +127,8 @@ func initCerts() {
 	kA, kB, kU := gen(), gen(), gen()
 	C.caA = mk("ca A", &kA.PublicKey, nil, kA, true, nil, nb, na)
 	C.caB = mk("ca B", &kB.PublicKey, nil, kB, true, nil, nb, na)
-	caU := mk("ca U", &kU.PublicKey, nil, kU, true, nil, nb, na)
+	_ = kU
+	caU, _, caUKey := loadOtherRoot()
 	C.caAPEM, C.caBPEM = pemOf(C.caA), pemOf(C.caB)
 	kF := gen()
 	C.F = mk("client F", &kF.PublicKey, nil, kF, false, client, nb, na)
@@ -98,7 +140,7 @@ func initCerts() {
 	k2 := gen()
 	C.B1 = mk("client B1", &k2.PublicKey, C.caB, kB, false, client, nb, na)
 	k3 := gen()
-	C.U = mk("client U", &k3.PublicKey, caU, kU, false, client, nb, na)
+	C.U = mkWith("client U", &k3.PublicKey, caU, caUKey, client, nb, na)
 	k4 := gen()
 	C.Aexp = mk("client A expired", &k4.PublicKey, C.caA, kA, false, client, nb.Add(-1000*time.Hour), nb.Add(-900*time.Hour))
 	k5 := gen()
@@ -163,9 +205,10 @@ func enumConfigs(thorough bool) []cfgSpec {
 		{Name: "kc", Kind: "alias", Alias: "kb"},
 		{Name: "kc", Kind: "real", Roles: r1},
 	}
-	trusteds := [][]string{nil, {"10.0.0.0/8"}}
+	// nil, a CIDR network, and a bare address (which must trust that one host only)
+	trusteds := [][]string{nil, {"10.0.0.0/8"}, {"10.1.2.3"}}
 	if thorough {
-		trusteds = append(trusteds, []string{"10.1.2.3"}, []string{"127.0.0.1", "10.0.0.0/8"})
+		trusteds = append(trusteds, []string{"127.0.0.1", "10.0.0.0/8"}, []string{"10.1.2.3", "192.168.7.7"})
 	}
 	for _, f := range fs {
 		for _, a := range as {
@@ -178,9 +221,12 @@ func enumConfigs(thorough bool) []cfgSpec {
 						for _, kc := range kcs {
 							for _, tr := range trusteds {
 								if !thorough {
-									// quick: drop the B client unless A is present too, and use
-									// the second trusted list only with the first key layout
+									// quick: drop the B client unless A is present too; the
+									// bare-address proxy list only with the plainest key layout
 									if b != nil && a == nil {
+										continue
+									}
+									if len(tr) == 1 && tr[0] == "10.1.2.3" && (kb != nil || kc != nil) {
 										continue
 									}
 								}
@@ -260,7 +306,8 @@ func enumRequests(cs cfgSpec, thorough bool) []reqSpec {
 		eps = append(eps, ep{"getkey", k}, ep{"sign", k})
 	}
 	eps = append(eps, ep{"sign", ""})
-	peers := []string{"192.0.2.9:555", "10.1.2.3:555"}
+	// never trusted; the configured proxy; another host of the same classful network
+	peers := []string{"192.0.2.9:555", "10.1.2.3:555", "10.77.0.9:555"}
 	tlss := []string{"none", "F", "FA", "A1", "B1", "U", "Aexp", "Asrv"}
 	type hx struct{ xff, hdr string }
 	hxs := []hx{{"", "none"}, {"198.51.100.7", "F"}, {"198.51.100.7", "A1"}, {"198.51.100.7", "none"}, {"", "F"}, {"198.51.100.7, 10.9.9.9", "B1"}, {"10.9.9.9", "FA"}, {"198.51.100.7", "nonpem"}}
@@ -657,6 +704,8 @@ func violationKey(cs cfgSpec, r reqSpec, obs observation, alts []verdict) string
 func main() {
 	relicx.Quiet()
 	run = vlib.NewRun("C04", "model_checking")
+	os.Setenv("SSL_CERT_FILE", sysRootFile)
+	os.Setenv("SSL_CERT_DIR", "/nonexistent")
 	if run.Fork(16) {
 		finish()
 	}
